@@ -108,7 +108,7 @@ class AdvancedHTMLParser(HTMLParser):
 
 
     def _hasTagInParentLine(self, tag, root):
-        if tag == root or tag.parentNode == root:
+        if tag.parentNode == root:
             return True
         if tag.parentNode is None:
             return False
